@@ -11,10 +11,18 @@ From PV Require C01.Model C07.SrcRun.
 Import ListNotations.
 Local Open Scope string_scope.
 
+#[local] Arguments dec01 : simpl never.
+#[local] Arguments ext01 : simpl never.
+#[local] Arguments enc_b : simpl never.
+#[local] Arguments enc_i : simpl never.
+#[local] Arguments enc_x : simpl never.
+
+Lemma dec01_int c : dec01 (VInt c) = None.  Proof. reflexivity. Qed.
+
 (* ---- what reaches ext03, call by call ---- *)
 Section ExtLemmas.
   Notation ext := ext03.
-  Ltac bridge := unfold ext03, ext03_sm, ext03_new; cbn; rewrite ?dec01_enc_i, ?dec01_enc_x, ?dec01_enc_b; cbn.
+  Ltac bridge := unfold ext03, ext03_sm, ext03_new; cbn; rewrite ?dec01_enc_i, ?dec01_enc_x, ?dec01_enc_b, ?dec01_int; cbn.
 
   (* the vocabulary of ext01 *)
   Lemma ext3_cmp_lt c y st : ext "compare" [VStr "lt"; VInt c; enc_i y] [] st = Ok (enc_b (map_t (fun v => Z.ltb c v) y)) st.
@@ -179,13 +187,14 @@ Section Exec.
   Lemma xexec_seq_pass_r a st : exec ext (SSeq a SPass) st = exec ext a st.
   Proof. cbn [exec]. destruct (exec ext a st) as [[|v] st1|n st1|w]; reflexivity. Qed.
   (* x[k] = e on a tensor (a tagged tuple) held by the variable x (the evaluations leave the state as it is) *)
-  Lemma xexec_seq_setitem x ke e b st v kv l nv :
-    eval ext e st = Ok v st -> lookup x (vars st) = Some (VTuple l) -> eval ext ke st = Ok kv st ->
-    ext "$setitem" [VTuple l; kv; v] [] st = Ok nv st ->
+  Definition is_tuple (v : val) : Prop := match v with VTuple _ => True | _ => False end.
+  Lemma xexec_seq_setitem x ke e b st v kv tv nv :
+    eval ext e st = Ok v st -> lookup x (vars st) = Some tv -> is_tuple tv -> eval ext ke st = Ok kv st ->
+    ext "$setitem" [tv; kv; v] [] st = Ok nv st ->
     exec ext (SSeq (SAssign [TSub (EName x) ke] e) b) st = exec ext b (set_var x nv st).
   Proof.
-    intros He Hx Hk Hs. cbn [exec]. rewrite He. cbn [bind assign_all place_of store eval]. rewrite Hx. cbn [bind].
-    rewrite Hk. cbn [bind]. rewrite Hs. cbn [bind]. reflexivity.
+    intros He Hx Ht Hk Hs. cbn [exec]. rewrite He. cbn [bind assign_all place_of store eval]. rewrite Hx. cbn [bind].
+    rewrite Hk. cbn [bind]. destruct tv; try contradiction. rewrite Hs. cbn [bind]. reflexivity.
   Qed.
   (* x.append(e) on a Python list held by the variable x *)
   Lemma xexec_append x e st v l : eval ext e st = Ok v st -> lookup x (vars st) = Some (VList l) ->
@@ -307,13 +316,13 @@ Ltac setitem3_t tac :=
   | |- context [exec ?X (SSeq (SAssign [TSub (EName ?x) ?ke] ?e) ?b) ?st] =>
       let H1 := fresh "Hv" in let H2 := fresh "Hx" in let H3 := fresh "Hk" in let H4 := fresh "Hs" in
       eassert (H1 : eval X e st = Ok _ st); [ solve [tac] |];
-      eassert (H2 : lookup x (vars st) = Some (VTuple _)); [ solve [look; reflexivity] |];
+      eassert (H2 : lookup x (vars st) = Some _); [ solve [look; reflexivity] |];
       eassert (H3 : eval X ke st = Ok _ st); [ solve [ev3; reflexivity] |];
       match type of H1 with _ = Ok ?v _ =>
-      match type of H2 with _ = Some (VTuple ?l) =>
+      match type of H2 with _ = Some ?tv =>
       match type of H3 with _ = Ok ?kv _ =>
-        eassert (H4 : X "$setitem" [VTuple l; kv; v] [] st = Ok _ st); [ solve [tac] |];
-        rewrite (xexec_seq_setitem X x ke e b st v kv l _ H1 H2 H3 H4); clear H1 H2 H3 H4; push_state
+        eassert (H4 : X "$setitem" [tv; kv; v] [] st = Ok _ st); [ solve [tac] |];
+        rewrite (xexec_seq_setitem X x ke e b st v kv tv _ H1 H2 I H3 H4); clear H1 H2 H3 H4; push_state
       end end end
   end.
 
